@@ -151,6 +151,7 @@ func (e *Environment) SaveGlobals(to io.Writer, maxValueLen int) (int, error) {
 	}
 	slices.Sort(keys)
 	n := 0
+	to = verifSaveWriter(to)
 	for _, k := range keys {
 		if isConstantAndExtraIdentifier(k) {
 			// Don't save PI, E, etc.. that can't be changed.
